@@ -267,72 +267,150 @@ Qed.
 Lemma set_g_data_id b : set_g_data b (g_data b, g_data_spare b) = b.
 Proof. destruct b; reflexivity. Qed.
 
-Section RdLoop.
-Variable L : nat -> list Z -> Z -> gbs -> Z -> Z -> dec (gbs * Z * Z).
-Hypothesis L0 : forall rng i b n v, L 0%nat rng i b n v = Ret (b, n, v).
-Hypothesis LS : forall k rng i b n v, L (S k) rng i b n v =
-  bind packet_Long_ReadFrom_io (fun p => let '(v2, nn) := p in
-    L k rng (wrap_s 64 (i + 1)) (set_g_data b (zupd (g_data b) i (wrap_u 64 v2), g_data_spare b)) (wrap_s 64 (n + nn)) v2).
+Lemma zcopy_grow (d : list Z) n : (length d <= n)%nat -> zcopy (repeat 0 n) d = (d ++ repeat 0 (n - length d))%list.
+Proof.
+  intros H. unfold zcopy. rewrite repeat_length, firstn_all2 by exact H. f_equal.
+  replace n with (length d + (n - length d))%nat at 1 by lia. rewrite repeat_app, skipn_app, repeat_length, Nat.sub_diag.
+  rewrite skipn_all2 by (rewrite repeat_length; lia). reflexivity.
+Qed.
 
-Lemma L_robust : forall k rng i b n v, robust (L k rng i b n v).
+(* the growth rule of ReadFrom, as the translated make lengths state it: first = min(Len, maxPreallocLongs)
+   longs; when every allocated long has been read (i = len(b.data)) the array grows to i + min(Len - i, i) *)
+Definition grow_len (l i : Z) : Z := wrap_s 64 (i + Z.min (wrap_s 64 (wrap_s 64 l - i)) i).
+Lemma grow_len_small l i : 0 <= i < l -> l < 2 ^ 31 -> grow_len l i = i + Z.min (l - i) i.
+Proof.
+  intros Hi Hl. change (2 ^ 31) with 2147483648 in Hl. unfold grow_len.
+  rewrite (wrap_s_id 64 l) by (w64; lia). rewrite (wrap_s_id 64 (l - i)) by (w64; lia).
+  apply wrap_s_id; [lia|]. w64. lia.
+Qed.
+
+Section RdLoop.
+Variable L : Z -> nat -> Z -> gbs -> Z -> Z -> dec (gbs * Z * Z).
+Hypothesis L0 : forall l i b n v, L l 0%nat i b n v = Ret (b, n, v).
+Hypothesis LS : forall l k i b n v, L l (S k) i b n v =
+  if i =? zlen (g_data b)
+  then if grow_len l i <? 0 then Crash crash_make else
+       bind packet_Long_ReadFrom_io (fun p => let '(v2, nn) := p in
+         if ((i <? 0) || (zlen (g_data (set_g_data b (zcopy (zrepeat (grow_len l i)) (g_data b), []))) <=? i))%bool then Crash crash_index else
+         L l k (wrap_s 64 (i + 1))
+           (set_g_data (set_g_data b (zcopy (zrepeat (grow_len l i)) (g_data b), []))
+              (zupd (g_data (set_g_data b (zcopy (zrepeat (grow_len l i)) (g_data b), []))) i (wrap_u 64 v2),
+               g_data_spare (set_g_data b (zcopy (zrepeat (grow_len l i)) (g_data b), []))))
+           (wrap_s 64 (n + nn)) v2)
+  else bind packet_Long_ReadFrom_io (fun p => let '(v2, nn) := p in
+         if ((i <? 0) || (zlen (g_data b) <=? i))%bool then Crash crash_index else
+         L l k (wrap_s 64 (i + 1)) (set_g_data b (zupd (g_data b) i (wrap_u 64 v2), g_data_spare b)) (wrap_s 64 (n + nn)) v2).
+
+Lemma L_robust : forall k l i b n v, robust (L l k i b n v).
 Proof.
   induction k as [|k IH]; intros; [rewrite L0; constructor|]. rewrite LS.
-  apply robust_bind; [apply robust_Long_io|]. intros [v2 nn]. apply IH.
+  destruct (i =? zlen (g_data b)); [destruct (grow_len l i <? 0); [constructor|]|];
+  (apply robust_bind; [apply robust_Long_io|]; intros [v2 nn]; destruct (_ || _)%bool; [constructor|apply IH]).
 Qed.
 
-Lemma rloop_tie : forall k i rng b n v s, all_bytes s -> length (g_data b) = (i + k)%nat ->
-  0 <= n -> n + 8 * Z.of_nat k < 2 ^ 62 -> Z.of_nat (i + k) < 2 ^ 62 ->
+Lemma rloop_tie : forall k i l b n v s, all_bytes s -> 0 <= l < 2 ^ 31 -> Z.of_nat (i + k) = l ->
+  (i <= length (g_data b) <= i + k)%nat -> (length (g_data b) = i -> (1 <= i)%nat \/ k = 0%nat) ->
+  ((length (g_data b) < i + k)%nat -> g_data_spare b = []) ->
+  (* the allocation invariant, carried through every iteration: the array at hand is the caller's own
+     (in-place branch), or holds at most 1024 longs, or at most twice the longs already read *)
+  (length (g_data b) = i + k \/ length (g_data b) <= 1024 \/ length (g_data b) <= 2 * i)%nat ->
+  0 <= n -> n + 8 * Z.of_nat k < 2 ^ 62 ->
   match read_longs k s with
   | Some (ls, rest) => exists v',
-      run_flat (L k rng (Z.of_nat i) b n v) s =
+      run_flat (L l k (Z.of_nat i) b n v) s =
       FOk (set_g_data b ((firstn i (g_data b) ++ map Z.of_N ls)%list, g_data_spare b), n + 8 * Z.of_nat k, v') rest
-  | None => run_flat (L k rng (Z.of_nat i) b n v) s = FErr eEOF
+  | None => run_flat (L l k (Z.of_nat i) b n v) s = FErr eEOF
   end.
 Proof.
-  induction k as [|k IH]; intros i rng b n v s Hs Hb Hn Hn2 Hi; change (2 ^ 62) with 4611686018427387904 in *.
+  induction k as [|k IH]; intros i l b n v s Hs Hl Hik Hb Hpos Hsp Hal Hn Hn2;
+    change (2 ^ 62) with 4611686018427387904 in *; change (2 ^ 31) with 2147483648 in *.
   - cbn [read_longs]. exists v. rewrite L0. cbn [run_flat map]. rewrite app_nil_r.
     rewrite firstn_all2 by lia. rewrite set_g_data_id. replace (n + 8 * Z.of_nat 0) with n by lia. reflexivity.
-  - cbn [read_longs]. rewrite LS. rewrite run_flat_bind by apply robust_Long_io.
-    rewrite run_Long_io by exact Hs.
-    destruct (N.leb_spec 8 (lenN s)) as [L8|L8]; [|reflexivity].
-    pose proof (unbe_take_lt 8 s Hs L8) as B. set (u := unbe (takeN 8 s)) in *.
-    assert (Ex : wrap_u 64 (wrap_s 64 (Z.of_N u)) = Z.of_N u).
-    { rewrite wrap_u_of_s by lia. apply wrap_u_id; [lia|].
-      change (256 ^ 8)%N with 18446744073709551616%N in B. change (2 ^ 64) with 18446744073709551616. lia. }
-    rewrite Ex.
-    rewrite (wrap_s_id 64 (Z.of_nat i + 1)) by (w64; lia).
-    rewrite (wrap_s_id 64 (n + 8)) by (w64; lia).
-    replace (Z.of_nat i + 1) with (Z.of_nat (S i)) by lia.
-    set (b1 := set_g_data b (zupd (g_data b) (Z.of_nat i) (Z.of_N u), g_data_spare b)).
-    assert (Hd1 : g_data b1 = upd_nth (g_data b) i (Z.of_N u)).
-    { unfold b1, set_g_data, zupd. cbn [g_data fst]. rewrite Nat2Z.id. reflexivity. }
-    specialize (IH (S i) rng b1 (n + 8) (wrap_s 64 (Z.of_N u)) (dropN 8 s) (all_bytes_dropN 8 s Hs)).
-    rewrite Hd1, upd_nth_length in IH.
-    specialize (IH ltac:(lia) ltac:(lia) ltac:(lia) ltac:(lia)).
-    destruct (read_longs k (dropN 8 s)) as [[ls rest]|]; [|exact IH].
-    destruct IH as [v' IH]. exists v'. rewrite IH.
-    replace (n + 8 + 8 * Z.of_nat k) with (n + 8 * Z.of_nat (S k)) by lia.
-    assert (Eb : set_g_data b1 ((firstn (S i) (upd_nth (g_data b) i (Z.of_N u)) ++ map Z.of_N ls)%list, g_data_spare b1)
-                 = set_g_data b ((firstn i (g_data b) ++ map Z.of_N (u :: ls))%list, g_data_spare b)).
-    { unfold b1, set_g_data. cbn [g_data g_data_spare g_mask g_bits g_length g_valuesPerLong fst snd].
-      f_equal. cbn [map]. rewrite (firstn_S_nth (upd_nth (g_data b) i (Z.of_N u)) i) by (rewrite upd_nth_length; lia).
-      rewrite upd_nth_firstn, upd_nth_nth by lia. rewrite <- app_assoc. reflexivity. }
-    rewrite Eb. reflexivity.
+  - (* what follows the growth test, for any record b' that has room for long i *)
+    assert (HK : forall b', (i < length (g_data b') <= i + S k)%nat ->
+              ((length (g_data b') < i + S k)%nat -> g_data_spare b' = []) ->
+              (length (g_data b') = i + S k \/ length (g_data b') <= 1024 \/ length (g_data b') <= 2 * S i)%nat ->
+              match read_longs (S k) s with
+              | Some (ls, rest) => exists v',
+                  run_flat (bind packet_Long_ReadFrom_io (fun p => let '(v2, nn) := p in
+                     if ((Z.of_nat i <? 0) || (zlen (g_data b') <=? Z.of_nat i))%bool then Crash crash_index else
+                     L l k (wrap_s 64 (Z.of_nat i + 1))
+                       (set_g_data b' (zupd (g_data b') (Z.of_nat i) (wrap_u 64 v2), g_data_spare b')) (wrap_s 64 (n + nn)) v2)) s =
+                  FOk (set_g_data b' ((firstn i (g_data b') ++ map Z.of_N ls)%list, g_data_spare b'), n + 8 * Z.of_nat (S k), v') rest
+              | None => run_flat (bind packet_Long_ReadFrom_io (fun p => let '(v2, nn) := p in
+                     if ((Z.of_nat i <? 0) || (zlen (g_data b') <=? Z.of_nat i))%bool then Crash crash_index else
+                     L l k (wrap_s 64 (Z.of_nat i + 1))
+                       (set_g_data b' (zupd (g_data b') (Z.of_nat i) (wrap_u 64 v2), g_data_spare b')) (wrap_s 64 (n + nn)) v2)) s = FErr eEOF
+              end).
+    { intros b' Hb' Hsp' Hal'. cbn [read_longs]. rewrite run_flat_bind by apply robust_Long_io.
+      rewrite run_Long_io by exact Hs.
+      destruct (N.leb_spec 8 (lenN s)) as [L8|L8]; [|reflexivity].
+      pose proof (unbe_take_lt 8 s Hs L8) as B. set (u := unbe (takeN 8 s)) in *.
+      assert (Ex : wrap_u 64 (wrap_s 64 (Z.of_N u)) = Z.of_N u).
+      { rewrite wrap_u_of_s by lia. apply wrap_u_id; [lia|].
+        change (256 ^ 8)%N with 18446744073709551616%N in B. change (2 ^ 64) with 18446744073709551616. lia. }
+      rewrite Ex.
+      assert (Eg : ((Z.of_nat i <? 0) || (zlen (g_data b') <=? Z.of_nat i))%bool = false) by (unfold zlen, lenN; lia).
+      rewrite Eg.
+      rewrite (wrap_s_id 64 (Z.of_nat i + 1)) by (w64; lia).
+      rewrite (wrap_s_id 64 (n + 8)) by (w64; lia).
+      replace (Z.of_nat i + 1) with (Z.of_nat (S i)) by lia.
+      set (b1 := set_g_data b' (zupd (g_data b') (Z.of_nat i) (Z.of_N u), g_data_spare b')).
+      assert (Hd1 : g_data b1 = upd_nth (g_data b') i (Z.of_N u)).
+      { unfold b1, set_g_data, zupd. cbn [g_data fst]. rewrite Nat2Z.id. reflexivity. }
+      assert (Hs1 : g_data_spare b1 = g_data_spare b') by reflexivity.
+      specialize (IH (S i) l b1 (n + 8) (wrap_s 64 (Z.of_N u)) (dropN 8 s) (all_bytes_dropN 8 s Hs)).
+      rewrite Hd1, Hs1, upd_nth_length in IH.
+      specialize (IH ltac:(lia) ltac:(lia) ltac:(lia) ltac:(lia) ltac:(intros; apply Hsp'; lia) ltac:(lia) ltac:(lia) ltac:(lia)).
+      destruct (read_longs k (dropN 8 s)) as [[ls rest]|]; [|exact IH].
+      destruct IH as [v' IH]. exists v'. rewrite IH.
+      replace (n + 8 + 8 * Z.of_nat k) with (n + 8 * Z.of_nat (S k)) by lia.
+      assert (Eb : set_g_data b1 ((firstn (S i) (upd_nth (g_data b') i (Z.of_N u)) ++ map Z.of_N ls)%list, g_data_spare b')
+                   = set_g_data b' ((firstn i (g_data b') ++ map Z.of_N (u :: ls))%list, g_data_spare b')).
+      { unfold b1, set_g_data. cbn [g_data g_data_spare g_mask g_bits g_length g_valuesPerLong fst snd].
+        f_equal. cbn [map]. rewrite (firstn_S_nth (upd_nth (g_data b') i (Z.of_N u)) i) by (rewrite upd_nth_length; lia).
+        rewrite upd_nth_firstn, upd_nth_nth by lia. rewrite <- app_assoc. reflexivity. }
+      rewrite Eb. reflexivity. }
+    rewrite LS.
+    destruct (Z.eqb_spec (Z.of_nat i) (zlen (g_data b))) as [E|E]; unfold zlen, lenN in E.
+    + (* every allocated long has been read: grow *)
+      assert (Ei : length (g_data b) = i) by lia.
+      destruct (Hpos Ei) as [Hi1|?]; [|discriminate].
+      rewrite (grow_len_small l (Z.of_nat i)) by lia.
+      set (X := Z.of_nat i + Z.min (l - Z.of_nat i) (Z.of_nat i)).
+      assert (HX : Z.of_nat i + 1 <= X <= l) by (unfold X; lia).
+      destruct (Z.ltb_spec X 0) as [?|_]; [lia|].
+      set (b3 := set_g_data b (zcopy (zrepeat X) (g_data b), [])).
+      assert (Hd3 : g_data b3 = (g_data b ++ repeat 0 (Z.to_nat X - i))%list).
+      { unfold b3, set_g_data, zrepeat. cbn [g_data fst]. rewrite zcopy_grow by lia. rewrite Ei. reflexivity. }
+      specialize (HK b3). rewrite Hd3, app_length, repeat_length in HK.
+      specialize (HK ltac:(lia) ltac:(intros; reflexivity) ltac:(lia)).
+      rewrite <- Hd3 in HK.
+      destruct (read_longs (S k) s) as [[ls rest]|]; [|exact HK].
+      destruct HK as [v' HK]. exists v'. rewrite HK. f_equal. f_equal. f_equal.
+      rewrite (Hsp ltac:(lia)).
+      unfold b3 at 1, set_g_data. cbn [g_data g_data_spare g_mask g_bits g_length g_valuesPerLong fst snd].
+      f_equal. f_equal. rewrite Hd3. rewrite firstn_app, Ei, Nat.sub_diag. cbn [firstn]. rewrite app_nil_r. reflexivity.
+    + (* room left *)
+      apply HK; [lia|exact Hsp|lia].
 Qed.
 
-Lemma rd_finish rng l n0 b1 rest : all_bytes rest -> 0 <= l < 2 ^ 31 -> (n0 <= 5)%N ->
-  length (g_data b1) = Z.to_nat l ->
-  run_flat (bind (L (Z.to_nat l) rng 0 b1 (Z.of_N n0) 0) (fun p => let '(b4, n3, _) := p in Ret (b4, n3))) rest =
+Lemma rd_finish l n0 b1 rest : all_bytes rest -> 0 <= l < 2 ^ 31 -> (n0 <= 5)%N ->
+  (length (g_data b1) <= Z.to_nat l)%nat -> (1 <= length (g_data b1))%nat \/ l = 0 ->
+  ((length (g_data b1) < Z.to_nat l)%nat -> g_data_spare b1 = []) ->
+  (length (g_data b1) = Z.to_nat l \/ length (g_data b1) <= 1024)%nat ->
+  run_flat (bind (L l (Z.to_nat l) 0 b1 (Z.of_N n0) 0) (fun p => let '(b4, n3, _) := p in Ret (b4, n3))) rest =
   if (8 * Z.to_N l <=? lenN rest)%N
   then FOk (set_g_data b1 (map Z.of_N (C11.longs_of (takeN (8 * Z.to_N l) rest)), g_data_spare b1),
             Z.of_N (n0 + 8 * Z.to_N l)) (dropN (8 * Z.to_N l) rest)
   else FErr eEOF.
 Proof.
-  intros Hr Hl Hn Hb. change (2 ^ 31) with 2147483648 in Hl.
+  intros Hr Hl Hn Hb Hpos Hsp Hal. change (2 ^ 31) with 2147483648 in Hl.
   rewrite run_flat_bind by apply L_robust.
-  pose proof (rloop_tie (Z.to_nat l) 0 rng b1 (Z.of_N n0) 0 rest Hr) as T. cbn [Nat.add firstn app] in T.
+  pose proof (rloop_tie (Z.to_nat l) 0 l b1 (Z.of_N n0) 0 rest Hr) as T. cbn [Nat.add firstn app] in T.
   change (Z.of_nat 0) with 0 in T.
-  specialize (T Hb ltac:(lia) ltac:(change (2 ^ 62) with 4611686018427387904; lia) ltac:(change (2 ^ 62) with 4611686018427387904; lia)).
+  specialize (T ltac:(change (2 ^ 31) with 2147483648; lia) ltac:(lia) ltac:(lia) ltac:(lia) Hsp ltac:(lia) ltac:(lia)
+                ltac:(change (2 ^ 62) with 4611686018427387904; lia)).
   rewrite read_longs_spec in T. replace (N.of_nat (Z.to_nat l)) with (Z.to_N l) in T by lia.
   destruct (8 * Z.to_N l <=? lenN rest)%N.
   - destruct T as [v' T]. rewrite T. cbn [run_flat]. do 2 f_equal. lia.
@@ -372,29 +450,29 @@ Proof.
     replace (N.of_nat (Z.to_nat l)) with (Z.to_N l) in R by lia.
     destruct (N.leb_spec (8 * Z.to_N l) (lenN rest)); [|lia].
     apply read_longs_len in R. unfold lenN. lia. }
-  unfold spare_after.
+  unfold spare_after. rewrite Z.sub_0_r.
   destruct (Z.leb_spec l (zlen (g_data b) + zlen (g_data_spare b))) as [Fit|Small].
   - rewrite zlen_app. destruct (Z.ltb_spec l 0) as [?|_]; [lia|].
     destruct (Z.ltb_spec (zlen (g_data b) + zlen (g_data_spare b)) l) as [?|_]; [lia|]. cbn [orb].
     set (b1 := set_g_data b (ztake l (g_data b ++ g_data_spare b), zdrop l (g_data b ++ g_data_spare b))).
     assert (Hb1 : length (g_data b1) = Z.to_nat l).
     { unfold b1, set_g_data. cbn [g_data fst]. apply ztake_length. rewrite zlen_app. lia. }
-    assert (Ez : zlen (g_data b1) = l) by (unfold zlen, lenN; lia). rewrite Ez.
     rewrite (rd_finish c11_BitStorage_ReadFrom_loop1 (fun _ _ _ _ _ => eq_refl) (fun _ _ _ _ _ _ => eq_refl)
-               (g_data b1) l n b1 rest Hr ltac:(change (2 ^ 31) with 2147483648; lia) Rn Hb1).
+               l n b1 rest Hr ltac:(change (2 ^ 31) with 2147483648; lia) Rn ltac:(lia) ltac:(lia) ltac:(lia) ltac:(lia)).
     cbn [run_flat C11.set_data C11.data].
     destruct (N.leb_spec (8 * Z.to_N l) (lenN rest)) as [Le|Le]; [|reflexivity].
     cbn [run_flat C11.set_data C11.data].
     rewrite (Hlen _ Le eq_refl).
     destruct (Z.leb_spec l (zlen (g_data b) + zlen (g_data_spare b))) as [_|?]; [|lia].
     unfold b1, set_g_data. cbn [g_data g_data_spare g_mask g_bits g_length g_valuesPerLong fst snd]. reflexivity.
-  - destruct (Z.ltb_spec l 0) as [?|_]; [lia|].
-    set (b1 := set_g_data b (zrepeat l, [])).
-    assert (Hb1 : length (g_data b1) = Z.to_nat l).
+  - unfold c11_BitStorage_ReadFrom_make2. rewrite (wrap_s_id 64 l) by (w64; lia).
+    destruct (Z.ltb_spec (Z.min l 1024) 0) as [?|_]; [lia|].
+    set (b1 := set_g_data b (zrepeat (Z.min l 1024), [])).
+    assert (Hb1 : length (g_data b1) = Z.to_nat (Z.min l 1024)).
     { unfold b1, set_g_data. cbn [g_data fst]. apply zrepeat_length. }
-    assert (Ez : zlen (g_data b1) = l) by (unfold zlen, lenN; lia). rewrite Ez.
+    assert (Hl1 : 1 <= l) by (unfold zlen in Small; lia).
     rewrite (rd_finish c11_BitStorage_ReadFrom_loop2 (fun _ _ _ _ _ => eq_refl) (fun _ _ _ _ _ _ => eq_refl)
-               (g_data b1) l n b1 rest Hr ltac:(change (2 ^ 31) with 2147483648; lia) Rn Hb1).
+               l n b1 rest Hr ltac:(change (2 ^ 31) with 2147483648; lia) Rn ltac:(lia) ltac:(lia) ltac:(intros; reflexivity) ltac:(lia)).
     cbn [run_flat C11.set_data C11.data].
     destruct (N.leb_spec (8 * Z.to_N l) (lenN rest)) as [Le|Le]; [|reflexivity].
     cbn [run_flat C11.set_data C11.data].
@@ -402,6 +480,33 @@ Proof.
     destruct (Z.leb_spec l (zlen (g_data b) + zlen (g_data_spare b))) as [?|_]; [lia|].
     unfold b1, set_g_data. cbn [g_data g_data_spare g_mask g_bits g_length g_valuesPerLong fst snd]. reflexivity.
 Qed.
+
+(* ---- ALLOCATION (the defect fixed in level/bitstorage.go lived here: make([]uint64, Len) with the declared count
+   before any long had arrived).  With the make lengths TRANSLATED from ReadFrom - first = make2 Len =
+   min(Len, maxPreallocLongs), grown to make3 Len i = i + min(Len - i, i) only when every allocated long has been
+   read (the test i == len(b.data) of the loop, see LS above) - in every reachable state (a longs allocated, r
+   read) of a read that declares n longs: r <= a <= n, and a <= 1024 or a <= 2 r.  Nothing is allocated in
+   proportion to a declared count that the stream has not backed. *)
+Inductive rd_areach (first : Z -> Z) (grow : Z -> Z -> Z) (n : Z) : Z -> Z -> Prop :=
+| ra_init : rd_areach first grow n (first n) 0
+| ra_read a r : rd_areach first grow n a r -> r < a -> rd_areach first grow n a (r + 1)
+| ra_grow a r : rd_areach first grow n a r -> r = a -> a < n -> rd_areach first grow n (grow n r) r.
+
+Definition rd_alloc_inv (n a r : Z) : Prop := 0 <= r <= a /\ a <= n /\ (a <= 1024 \/ a <= 2 * r).
+
+Theorem read_alloc_bounded n : 0 <= n < 2 ^ 31 -> forall a r,
+  rd_areach c11_BitStorage_ReadFrom_make2 c11_BitStorage_ReadFrom_make3 n a r -> rd_alloc_inv n a r.
+Proof.
+  intros Hn a r H. change (2 ^ 31) with 2147483648 in Hn. unfold rd_alloc_inv.
+  induction H as [|a r H IH Hr|a r H IH -> Ha].
+  - unfold c11_BitStorage_ReadFrom_make2. rewrite (wrap_s_id 64 n) by (w64; lia). lia.
+  - lia.
+  - change (c11_BitStorage_ReadFrom_make3 n a) with (grow_len n a).
+    rewrite grow_len_small by (try change (2 ^ 31) with 2147483648; lia). lia.
+Qed.
+(* the copy of the loop that runs on the caller's own array has the same rule (it never fires there) *)
+Lemma read_grow_rules_agree l i : c11_BitStorage_ReadFrom_make1 l i = c11_BitStorage_ReadFrom_make3 l i.
+Proof. reflexivity. Qed.
 
 (* ================= headline theorems over translated code only ================= *)
 Lemma write32_bytes v : all_bytes (write32 v).
